@@ -90,4 +90,34 @@ theorem c13_last100_partial (ops : List Snd.Op) (hg : ∀ op ∈ ops, Snd.isGet 
 example : (Snd.notified {} (List.replicate 150 Snd.Op.notify)).take 100 = (List.range' 51 100).reverse := by
   decide +kernel
 
+/-- "Notify stores the datagram before sending": in EVERY state (whatever lookups happened before) the
+    notification just produced is retrievable by its counter — this is what a peer's immediate answer, handled
+    while `Notify` is still inside the connection's write, relies on — and that lookup leaves the cache as it
+    is when the counter is fresh (the newest entry is already the most recently used one). -/
+theorem c13_notify_retrievable_at_once (s : Snd.St) :
+    (Snd.get (Snd.notify s).1 (Snd.notify s).2).2 = true ∧
+    (s.msgNum + 1 ∉ s.lru → (Snd.get (Snd.notify s).1 (Snd.notify s).2).1 = (Snd.notify s).1) := by
+  constructor
+  · simp [Snd.get, Snd.notify]
+  · intro hf
+    have hd : s.msgNum + 1 ∉ s.lru.dropLast := fun h => hf (List.dropLast_subset _ h)
+    simp only [Snd.get, Snd.notify]
+    split
+    · simp only [List.contains_cons, BEq.rfl, Bool.true_or, if_true, List.filter_cons, ne_eq, not_true_eq_false,
+        decide_false, Bool.false_eq_true, if_false]
+      rw [List.filter_eq_self.mpr]
+      intro a ha
+      have : a ≠ s.msgNum + 1 := fun e => hd (e ▸ ha)
+      exact decide_eq_true this
+    · simp only [List.contains_cons, BEq.rfl, Bool.true_or, if_true, List.filter_cons, ne_eq, not_true_eq_false,
+        decide_false, Bool.false_eq_true, if_false]
+      rw [List.filter_eq_self.mpr]
+      intro a ha
+      have : a ≠ s.msgNum + 1 := fun e => hf (e ▸ ha)
+      exact decide_eq_true this
+
+/-- non-vacuity: after 100 notifications and a promoting lookup the next notification is still retrievable at once -/
+example : (Snd.get (Snd.notify (((List.replicate 100 Snd.Op.notify) ++ [Snd.Op.get 1]).foldl Snd.step {})).1 101).2 = true := by
+  decide +kernel
+
 end Spine.Props.C13
